@@ -320,7 +320,7 @@ fn native_spec() {
                 println!("SPEC-REPLAY MISMATCH target=react_actions case={n} x -c: count {:?}, expected {}", got.map_err(|e| e.kind()), n.min(255));
             }
         }
-    } else if target == "react_delimiter" {
+    } else if target == "react_delimiter" || target == "trailing_idx_once" {
         // C02: values are split only at the declared delimiter and no piece is dropped
         for (argv, want) in [
             (vec!["p", "-o", "a,,b"], vec!["a", "", "b"]),
@@ -343,6 +343,8 @@ fn native_spec() {
         // ... and with dont_delimit_trailing_values every value after `--` is kept whole, values before it are split
         for (argv, want) in [
             (vec!["p", "--", "c,d"], vec!["c,d"]),
+            (vec!["p", "--", "a,b", "c,d"], vec!["a,b", "c,d"]),
+            (vec!["p", "--", "a,b", "c,d", "e,f"], vec!["a,b", "c,d", "e,f"]),
             (vec!["p", "a,b", "--", "c,d"], vec!["a", "b", "c,d"]),
             (vec!["p", "a,b", "c", "--", "c,d", "e,f"], vec!["a", "b", "c", "c,d", "e,f"]),
             (vec!["p", "a,b", "c,d"], vec!["a", "b", "c", "d"]),
@@ -1091,6 +1093,35 @@ fn native_spec() {
             let got = cmd.clone().try_get_matches_from(argv.clone()).err().map(|e| e.kind());
             if got != want {
                 println!("SPEC-REPLAY MISMATCH target=validate_phases case=subcommand_required {argv:?}: {got:?}, expected {want:?}");
+            }
+        }
+    } else if target == "subcommand_dispatch_guard" {
+        // C09: a value of a multi-value option / positional that spells a subcommand name stays a value (unless subcommand_precedence_over_arg)
+        for prec in [false, true] {
+            let cmd = Command::new("p").subcommand_precedence_over_arg(prec)
+                .arg(Arg::new("opt").long("opt").num_args(1..).action(ArgAction::Append))
+                .arg(Arg::new("files").index(1).num_args(1..).action(ArgAction::Append))
+                .subcommand(Command::new("sub").alias("sb"));
+            for (argv, id, vals_no_prec) in [
+                (vec!["p", "a", "b", "sub"], "files", vec!["a", "b", "sub"]),
+                (vec!["p", "a", "sb"], "files", vec!["a", "sb"]),
+                (vec!["p", "--opt", "x", "sub"], "opt", vec!["x", "sub"]),
+            ] {
+                match cmd.clone().try_get_matches_from(argv.clone()) {
+                    Ok(m) => {
+                        let got: Vec<String> = m.get_many::<String>(id).map(|v| v.cloned().collect()).unwrap_or_default();
+                        let ok = if prec { m.subcommand_name() == Some("sub") && got.len() == vals_no_prec.len() - 1 } else { m.subcommand_name().is_none() && got == vals_no_prec };
+                        if !ok {
+                            println!("SPEC-REPLAY MISMATCH target=subcommand_dispatch_guard case=subcommand_precedence_over_arg={prec} {argv:?}: subcommand {:?}, {id}={got:?}", m.subcommand_name());
+                        }
+                    }
+                    Err(e) => println!("SPEC-REPLAY MISMATCH target=subcommand_dispatch_guard case=subcommand_precedence_over_arg={prec} {argv:?}: rejected as {:?}", e.kind()),
+                }
+            }
+            // between arguments a subcommand name is a subcommand
+            match cmd.clone().try_get_matches_from(["p", "sub"]) {
+                Ok(m) if m.subcommand_name() == Some("sub") => {}
+                other => println!("SPEC-REPLAY MISMATCH target=subcommand_dispatch_guard case=p sub: {:?}", other.map(|m| m.subcommand_name().map(|s| s.to_string())).map_err(|e| e.kind())),
             }
         }
     } else if target == "match_arg_error" {
